@@ -1,0 +1,31 @@
+//go:build verif
+
+package ssh
+
+// Contracts for the gvc verifier (/verif). Comment-only; never compiled into
+// a normal build.
+
+// writeShellQuote: run through a POSIX sh lexer, what is written is exactly
+// one word that decodes to s: the lexer starts and ends unquoted, never sees
+// an unquoted byte other than the quoting characters themselves, and the
+// decoded output grows by exactly the bytes of s.
+//gvc:func writeShellQuote
+//gvc:  props C41
+//gvc:  theory int
+//gvc:  requires bnn: b != nil
+//gvc:  requires start: b.#sq_q == 0
+//gvc:  let n0 = b.#sq_n
+//gvc:  let out0 = b.#sq_out
+//gvc:  loop 1 invariant idx: 0 <= i && i <= len(s)
+//gvc:  loop 1 invariant inquote: b.#sq_q == 1
+//gvc:  loop 1 invariant count: b.#sq_n == n0 + i
+//gvc:  loop 1 invariant decoded: forall(k, 0, i, b.#sq_out[n0 + k] == s[k])
+//gvc:  loop 1 invariant prefix: forall(k, 0, n0, b.#sq_out[k] == out0[k])
+//gvc:  loop 1 invariant grown: b.#blen >= old(b.#blen) + 1
+//gvc:  loop 1 decreases len(s) - i
+//gvc:  ensures closed: b.#sq_q == 0
+//gvc:  ensures count: b.#sq_n == n0 + len(s)
+//gvc:  ensures word: forall(k, 0, len(s), b.#sq_out[n0 + k] == s[k])
+//gvc:  ensures prefix: forall(k, 0, n0, b.#sq_out[k] == out0[k])
+//gvc:  ensures nonempty: b.#blen >= old(b.#blen) + 2
+//gvc:end
